@@ -1,0 +1,278 @@
+//go:build verif
+
+// Contracts for the verifier in /verif (comment-only file; compiled only with -tags verif).
+// Client-side handshake helpers: properties C12 (server selections must have been offered),
+// C22 (application settings), C21 (certificate compression).
+
+package tls
+
+// among(s, x): x is one of the elements of s;  noneOf(s, x, n): none of the first n elements of s is x.
+//@ spec among(s, x) = exists i in 0..len(s): s[i] == x
+//@ spec noneOf(s, x, n) = forall i in 0..n: s[i] != x
+
+// Package state established by the package initialisers (cipher_suites.go var / u_common.go init()):
+// the suite tables hold no nil pointer.
+//@ spec suitesOK() = forall i in 0..len(utlsSupportedCipherSuites): utlsSupportedCipherSuites[i] != nil
+//@ spec suites13OK() = forall i in 0..len(cipherSuitesTLS13): cipherSuitesTLS13[i] != nil
+
+// C12: the server's ALPN selection is accepted only when it is one of the protocols the client offered
+// (checkALPN is the only ALPN test of both the TLS 1.2 and the TLS 1.3 client paths).
+//@ func checkALPN
+//@   property C12
+//@   pure
+//@   ensures member: ret == nil ==> serverProto == "" || among(clientProtos, serverProto)
+//@   ensures reject: serverProto != "" && !among(clientProtos, serverProto) ==> ret != nil
+//@   ensures accept: serverProto != "" && among(clientProtos, serverProto) ==> ret == nil
+//@   ensures quicnone: serverProto == "" ==> (ret != nil <==> quic && len(clientProtos) > 0)
+//@   loop 0 invariant -1 <= $rangeindex && $rangeindex < len(clientProtos)
+//@   loop 0 invariant noneOf(clientProtos, serverProto, $k)
+
+// C12: a cipher suite is returned only when the server's choice is among the offered ids, and it is
+// the suite with exactly that id.
+//@ func cipherSuiteByID
+//@   property C12
+//@   requires suitesOK()
+//@   pure
+//@   ensures id: ret != nil ==> ret.id == id
+//@   ensures elem: ret != nil ==> among(utlsSupportedCipherSuites, ret)
+//@   ensures none: ret == nil ==> forall i in 0..len(utlsSupportedCipherSuites): utlsSupportedCipherSuites[i].id != id
+//@   loop 0 invariant -1 <= $rangeindex && $rangeindex < len(utlsSupportedCipherSuites)
+//@   loop 0 invariant forall j in 0..$k: utlsSupportedCipherSuites[j].id != id
+
+//@ func mutualCipherSuite
+//@   property C12
+//@   requires suitesOK()
+//@   pure
+//@   ensures member: ret != nil ==> among(have, want)
+//@   ensures id: ret != nil ==> ret.id == want
+//@   ensures notoffered: !among(have, want) ==> ret == nil
+//@   loop 0 invariant -1 <= $rangeindex && $rangeindex < len(have)
+//@   loop 0 invariant noneOf(have, want, $k)
+
+//@ func cipherSuiteTLS13ByID
+//@   property C12
+//@   requires suites13OK()
+//@   pure
+//@   ensures id: ret != nil ==> ret.id == id
+//@   ensures elem: ret != nil ==> among(cipherSuitesTLS13, ret)
+//@   ensures none: ret == nil ==> forall i in 0..len(cipherSuitesTLS13): cipherSuitesTLS13[i].id != id
+//@   loop 0 invariant -1 <= $rangeindex && $rangeindex < len(cipherSuitesTLS13)
+//@   loop 0 invariant forall j in 0..$k: cipherSuitesTLS13[j].id != id
+
+//@ func mutualCipherSuiteTLS13
+//@   property C12
+//@   requires suites13OK()
+//@   pure
+//@   ensures member: ret != nil ==> among(have, want)
+//@   ensures id: ret != nil ==> ret.id == want
+//@   ensures notoffered: !among(have, want) ==> ret == nil
+//@   loop 0 invariant -1 <= $rangeindex && $rangeindex < len(have)
+//@   loop 0 invariant noneOf(have, want, $k)
+
+// C12 (TLS <= 1.2 path): the handshake continues only with a suite the ClientHello offered; that
+// suite's id is what ConnectionState.CipherSuite reports (c.cipherSuite). Otherwise handshake_failure.
+//@ func (*clientHandshakeState).pickCipherSuite
+//@   property C12
+//@   let offered = hs.hello.cipherSuites
+//@   let chosen = hs.serverHello.cipherSuite
+//@   requires suitesOK()
+//@   requires hs != nil && hs.hello != nil && hs.serverHello != nil && hs.c != nil
+//@   ensures member: ret == nil ==> among(offered, chosen)
+//@   ensures reported: ret == nil ==> hs.suite != nil && hs.suite.id == chosen && hs.c.cipherSuite == chosen
+//@   ensures reject: !old(among(offered, chosen)) ==> ret != nil
+//@   at before call sendAlert#0: assert alert: arg1 == alertHandshakeFailure
+//@   at before call sendAlert#0: assert nosuite: isnil(hs.suite)
+
+// ---------------------------------------------------------------------------------------------
+// C21: CompressedCertificate (RFC 8879) message codec.
+// wire: type(1) length(3) algorithm(2) uncompressed_length(3) compressed_certificate_message<1..2^24-1>
+
+// helper of handshake_messages.go: s.ReadUint24LengthPrefixed into a *[]byte
+//@ func readUint24LengthPrefixed
+//@   property C21
+//@   let n = (*s)[0]*65536 + (*s)[1]*256 + (*s)[2]
+//@   requires s != nil && out != nil
+//@   modifies *s, *out
+//@   ensures nolen: len(old(*s)) < 3 ==> !ret && *s == old(*s) && *out == old(*out)
+//@   ensures short: len(old(*s)) >= 3 && len(old(*s)) < 3 + n ==> !ret && (s != out ==> *out == old(*out)) && *s == old((*s)[3:])
+//@   ensures ok: len(old(*s)) >= 3 + n ==> ret && *out == old((*s)[3:3+n]) && (s != out ==> *s == old((*s)[3+n:]))
+//@   note s and out may be the same variable (out is converted to *cryptobyte.String); then the child, stored last, wins
+
+// unmarshal is total, keeps the raw message, and on success the fields are exactly the wire fields.
+//@ func (*utlsCompressedCertificateMsg).unmarshal
+//@   property C21
+//@   let n = data[9]*65536 + data[10]*256 + data[11]
+//@   requires m != nil
+//@   modifies m.raw, m.algorithm, m.uncompressedLength, m.compressedCertificateMessage
+//@   ensures raw: m.raw == data
+//@   ensures total: ret <==> len(data) >= 12 && len(data) >= 12 + n
+//@   ensures alg: ret ==> m.algorithm == data[4]*256 + data[5]
+//@   ensures ulen: ret ==> m.uncompressedLength == data[6]*65536 + data[7]*256 + data[8]
+//@   ensures body: ret ==> m.compressedCertificateMessage == data[12:12+n]
+//@   ensures bodybytes: ret ==> len(m.compressedCertificateMessage) == n && forall j in 0..n: m.compressedCertificateMessage[j] == data[12+j]
+//@   ensures data: unchanged(data)
+
+// ---------------------------------------------------------------------------------------------
+// C22: application settings (ALPS) in EncryptedExtensions.
+
+// Server EncryptedExtensions: an ALPS extension on either codepoint (17513 old, 17613 new) is recorded
+// with its codepoint and its exact payload; every other extension leaves the ALPS fields alone.
+//@ spec isALPS(x) = x == utlsExtensionApplicationSettings || x == utlsExtensionApplicationSettingsNew
+//@ func (*encryptedExtensionsMsg).utlsUnmarshal
+//@   property C22
+//@   requires m != nil
+//@   modifies m.utls.applicationSettingsCodepoint, m.utls.applicationSettings
+//@   ensures total: ret
+//@   ensures codepoints: utlsExtensionApplicationSettings == 17513 && utlsExtensionApplicationSettingsNew == 17613
+//@   ensures alps: isALPS(extension) ==> m.utls.applicationSettingsCodepoint == extension && m.utls.applicationSettings == extData
+//@   ensures other: !isALPS(extension) ==> m.utls.applicationSettingsCodepoint == old(m.utls.applicationSettingsCodepoint) && m.utls.applicationSettings == old(m.utls.applicationSettings)
+//@   ensures payload: unchanged(extData)
+
+// Server EncryptedExtensions decoder (handshake_messages.go), as far as ALPS is concerned:
+// wire: type(1) length(3) extensions<0..2^16-1>, each extension = codepoint(2) data<0..2^16-1>.
+// The recorded settings are the exact payload of an ALPS extension of the message (`single` pins it
+// down completely for a message whose only extension is ALPS; in general: some ALPS payload inside data),
+// and without an ALPS extension nothing is recorded.
+//@ func (*encryptedExtensionsMsg).unmarshal
+//@   property C22
+//@   note cover:return2/3/4 are unsat on purpose, the three returns are dead code: return2 = `!m.utlsUnmarshal(..)` (utlsUnmarshal always returns true), return3/return4 = `!extData.CopyBytes(make([]byte, len(extData)))` cannot fail (extData is non-nil after ReadUint16LengthPrefixed and the lengths are equal)
+//@   let L = data[4]*256 + data[5]
+//@   let cp1 = data[6]*256 + data[7]
+//@   let n1 = data[8]*256 + data[9]
+//@   requires m != nil
+//@   modifies *m
+//@   ensures data: unchanged(data)
+//@   ensures framing: ret ==> len(data) >= 6 && len(data) == 6 + L
+//@   ensures noext: len(data) >= 6 && len(data) == 6 + L && L == 0 ==> ret && m.utls.applicationSettingsCodepoint == 0 && isnil(m.utls.applicationSettings)
+//@   ensures single: len(data) >= 10 && len(data) == 6 + L && L == 4 + n1 && isALPS(cp1) ==> ret && m.utls.applicationSettingsCodepoint == cp1 && m.utls.applicationSettings == data[10:10+n1]
+//@   ensures kind: ret ==> m.utls.applicationSettingsCodepoint == 0 || isALPS(m.utls.applicationSettingsCodepoint)
+//@   ensures absent: ret && m.utls.applicationSettingsCodepoint == 0 ==> isnil(m.utls.applicationSettings)
+//@   ensures within: ret && m.utls.applicationSettingsCodepoint != 0 ==> arr(m.utls.applicationSettings) == arr(data) && off(m.utls.applicationSettings) >= off(data) + 10 && off(m.utls.applicationSettings) + len(m.utls.applicationSettings) <= off(data) + len(data)
+//@   loop 0 invariant len(data) >= 6 && len(data) == 6 + L
+//@   loop 0 invariant arr(extensions) == arr(data) && off(extensions) >= off(data) + 6 && off(extensions) + len(extensions) == off(data) + 6 + L && off(extensions) + cap(extensions) == off(data) + cap(data)
+//@   loop 0 invariant off(extensions) == off(data) + 6 ==> m.utls.applicationSettingsCodepoint == 0
+//@   loop 0 invariant off(extensions) > off(data) + 6 ==> off(extensions) >= off(data) + 10 + n1
+//@   loop 0 invariant m.utls.applicationSettingsCodepoint == 0 || isALPS(m.utls.applicationSettingsCodepoint)
+//@   loop 0 invariant m.utls.applicationSettingsCodepoint == 0 ==> isnil(m.utls.applicationSettings)
+//@   loop 0 invariant m.utls.applicationSettingsCodepoint != 0 ==> arr(m.utls.applicationSettings) == arr(data) && off(m.utls.applicationSettings) >= off(data) + 10 && off(m.utls.applicationSettings) + len(m.utls.applicationSettings) <= off(extensions)
+//@   loop 0 invariant off(extensions) == off(data) + 10 + n1 && isALPS(cp1) ==> m.utls.applicationSettingsCodepoint == cp1 && m.utls.applicationSettings == data[10:10+n1]
+
+// Client EncryptedExtensions (decoder of the message produced by marshal below; used by the peer side):
+// wire: type(1) length(3) extensions<0..2^16-1>, each extension = codepoint(2) data<0..2^16-1>.
+// Only ALPS extensions are legal; the decoded payload is exactly the wire payload.
+//@ func (*utlsClientEncryptedExtensionsMsg).unmarshal
+//@   property C22
+//@   let L = data[4]*256 + data[5]
+//@   let cp1 = data[6]*256 + data[7]
+//@   let n1 = data[8]*256 + data[9]
+//@   requires m != nil
+//@   modifies m.raw, m.applicationSettings, m.applicationSettingsCodepoint, m.customExtension
+//@   ensures raw: m.raw == data
+//@   ensures data: unchanged(data)
+//@   ensures framing: ret ==> len(data) >= 6 && len(data) == 6 + L
+//@   ensures short: len(data) < 6 || len(data) != 6 + L ==> !ret
+//@   ensures empty: len(data) >= 6 && len(data) == 6 + L && L == 0 ==> ret && m.applicationSettingsCodepoint == 0 && isnil(m.applicationSettings)
+//@   ensures single: len(data) >= 10 && len(data) == 6 + L && L == 4 + n1 ==> (ret <==> isALPS(cp1))
+//@   ensures singleval: ret && len(data) >= 10 && L == 4 + n1 ==> m.applicationSettingsCodepoint == cp1 && m.applicationSettings == data[10:10+n1]
+//@   ensures alps: ret && L > 0 ==> isALPS(m.applicationSettingsCodepoint)
+//@   ensures within: ret && L > 0 ==> arr(m.applicationSettings) == arr(data) && off(m.applicationSettings) >= off(data) + 10 && off(m.applicationSettings) + len(m.applicationSettings) <= off(data) + len(data)
+//@   ensures custom: isnil(m.customExtension)
+//@   loop 0 invariant len(data) >= 6 && len(data) == 6 + L
+//@   loop 0 invariant m.raw == data && isnil(m.customExtension)
+//@   loop 0 invariant arr(extensions) == arr(data) && off(extensions) >= off(data) + 6 && off(extensions) + len(extensions) == off(data) + 6 + L && off(extensions) + cap(extensions) == off(data) + cap(data)
+//@   loop 0 invariant off(extensions) == off(data) + 6 ==> m.applicationSettingsCodepoint == 0 && isnil(m.applicationSettings)
+//@   loop 0 invariant off(extensions) > off(data) + 6 ==> off(extensions) >= off(data) + 10 + n1 && isALPS(cp1)
+//@   loop 0 invariant off(extensions) > off(data) + 6 ==> isALPS(m.applicationSettingsCodepoint) && arr(m.applicationSettings) == arr(data) && off(m.applicationSettings) >= off(data) + 10 && off(m.applicationSettings) + len(m.applicationSettings) <= off(extensions)
+//@   loop 0 invariant off(extensions) == off(data) + 10 + n1 ==> m.applicationSettingsCodepoint == cp1 && m.applicationSettings == data[10:10+n1]
+
+// marshal: only the cached path is specified (a message that was unmarshalled is re-emitted byte for
+// byte, which is what the transcript hash relies on). The encoding path goes through
+// cryptobyte.Builder.AddUintNLengthPrefixed(func(*Builder){...}); calls through function values are
+// opaque to the verifier, so the produced bytes are NOT specified (see report).
+//@ func (*utlsCompressedCertificateMsg).marshal
+//@   property C21
+//@   requires m != nil
+//@   assume-pure AddUint8 AddUint24LengthPrefixed Bytes
+//@   modifies m.raw
+//@   ensures cached: !isnil(old(m.raw)) ==> ret0 == old(m.raw) && ret1 == nil && m.raw == old(m.raw)
+//@   ensures stored: ret0 == m.raw
+
+//@ func (*utlsClientEncryptedExtensionsMsg).marshal
+//@   property C22
+//@   requires m != nil
+//@   assume-pure AddUint8 AddUint24LengthPrefixed Bytes
+//@   modifies m.raw
+//@   ensures cached: !isnil(old(m.raw)) ==> x == old(m.raw) && err == nil && m.raw == old(m.raw)
+//@   ensures stored: x == m.raw
+
+// Client handling of the server's ALPS (called from readServerParameters after checkALPN succeeded and
+// c.clientProtocol was set to the ALPN protocol the server selected in EncryptedExtensions).
+// expose/codepoint: the server's settings become ConnectionState.PeerApplicationSettings
+//   (u_conn.go: state.PeerApplicationSettings = c.utls.peerApplicationSettings);
+// rejectOld/rejectNoALPN: ALPS below TLS 1.3 or without negotiated ALPN is an error;
+// DEFECT_C22_localsettings: the client's own settings for the *selected protocol* are what
+//   sendClientEncryptedExtensions will send. The code looks the settings up under
+//   hs.serverHello.alpnProtocol, which in TLS 1.3 is always "" (checkServerHelloOrHRR rejects a
+//   ServerHello carrying ALPN), not under c.clientProtocol.
+//@ func (*clientHandshakeStateTLS13).utlsReadServerParameters
+//@   property C22
+//@   let cp = encryptedExtensions.utls.applicationSettingsCodepoint
+//@   let proto = hs.c.clientProtocol
+//@   let cfg = hs.c.config.ApplicationSettings
+//@   requires hs != nil && hs.c != nil && hs.uconn != nil && hs.uconn.Conn == hs.c && hs.c.config != nil && hs.serverHello != nil && encryptedExtensions != nil
+//@   modifies hs.c.utls.peerApplicationSettings, hs.c.utls.applicationSettingsCodepoint, hs.c.utls.localApplicationSettings
+//@   ensures expose: hs.c.utls.peerApplicationSettings == old(encryptedExtensions.utls.applicationSettings)
+//@   ensures codepoint: hs.c.utls.applicationSettingsCodepoint == cp
+//@   ensures rejectOld: cp != 0 && hs.c.vers < VersionTLS13 ==> ret != nil
+//@   ensures rejectNoALPN: cp != 0 && len(proto) == 0 ==> ret != nil
+//@   ensures accept: cp == 0 || (hs.c.vers >= VersionTLS13 && len(proto) != 0) ==> ret == nil
+//@   ensures none: cp == 0 ==> hs.c.utls.localApplicationSettings == old(hs.c.utls.localApplicationSettings)
+//@   ensures actualkey: ret == nil && cp != 0 && has(cfg, hs.serverHello.alpnProtocol) ==> hs.c.utls.localApplicationSettings == cfg[hs.serverHello.alpnProtocol]
+//@   ensures actualmiss: ret == nil && cp != 0 && !has(cfg, hs.serverHello.alpnProtocol) ==> hs.c.utls.localApplicationSettings == old(hs.c.utls.localApplicationSettings)
+//@   note actualkey/actualmiss describe what the code does (lookup under the ServerHello ALPN, silently keeping the old value on a miss); the next clause is what C22 asks for and is NOT satisfied
+//@   ensures DEFECT_C22_localsettings: ret == nil && cp != 0 && has(cfg, proto) ==> hs.c.utls.localApplicationSettings == cfg[proto]
+
+// The client's EncryptedExtensions: sent exactly when the server negotiated ALPS; it carries the
+// negotiated codepoint and the client's local settings, and is written with the handshake transcript
+// (so that it is covered by the Finished computation).
+//@ func (*clientHandshakeStateTLS13).sendClientEncryptedExtensions
+//@   property C22
+//@   let c = hs.c
+//@   let cp = hs.c.utls.applicationSettingsCodepoint
+//@   let local = hs.c.utls.localApplicationSettings
+//@   let tr = hs.transcript
+//@   requires hs != nil && hs.c != nil
+//@   ensures noalps: cp == 0 ==> ret == nil
+//@   note the error of writeHandshakeRecord is returned unchanged; not stated: callres() of a two-result call has no projection in the contract language
+//@   at before call writeHandshakeRecord#0: assert conn: arg0 == c
+//@   at before call writeHandshakeRecord#0: assert msgtype: istype(arg1, *utlsClientEncryptedExtensionsMsg)
+//@   at before call writeHandshakeRecord#0: assert codepoint: arg1.(*utlsClientEncryptedExtensionsMsg).applicationSettingsCodepoint == cp && cp != 0
+//@   at before call writeHandshakeRecord#0: assert settings: arg1.(*utlsClientEncryptedExtensionsMsg).applicationSettings == local
+//@   at before call writeHandshakeRecord#0: assert fresh: isnil(arg1.(*utlsClientEncryptedExtensionsMsg).raw) && isnil(arg1.(*utlsClientEncryptedExtensionsMsg).customExtension)
+//@   at before call writeHandshakeRecord#0: assert transcript: arg2 == tr
+
+// ---------------------------------------------------------------------------------------------
+// C21 / C12: (*clientHandshakeStateTLS13).decompressCert (u_handshake_client.go:51) has NO contract:
+// the generator rejects it ("conditional defer": `defer rc.Close()` inside the switch cases), and the
+// decoders (brotli/zlib/zstd readers) are third-party io.Readers without a model. What the contract
+// would say, and what the code does not satisfy (see the report):
+//   unadvertised: !among(hs.uconn.certCompressionAlgs, m.algorithm) ==> ret0 == nil && ret1 != nil, alert bad_certificate
+//   lenmismatch:  decompressed stream length != m.uncompressedLength ==> ret1 != nil, alert bad_certificate
+//                 (the code performs one Read into a buffer of the declared size: a longer stream is
+//                 accepted silently, a valid stream delivered in several short reads is rejected)
+//   needs m.uncompressedLength <= 0xffffff (guaranteed by unmarshal's `ulen`), else uint32 +4 wraps and rawMsg[0] panics.
+
+// C21: the certificate handed on is produced by decompressCert from exactly the CompressedCertificate
+// message that was received and added to the transcript; every other message is left to the caller.
+//@ func (*clientHandshakeStateTLS13).utlsReadServerCertificate
+//@   property C21
+//@   let cm = msg.(*utlsCompressedCertificateMsg)
+//@   requires hs != nil && hs.uconn != nil
+//@   requires typednil: istype(msg, *utlsCompressedCertificateMsg) ==> cm != nil
+//@   note readHandshake always passes a freshly allocated message, never a typed nil pointer
+//@   ensures notcompressed: !istype(msg, *utlsCompressedCertificateMsg) ==> processedMsg == nil && err == nil
+//@   ensures notadvertised: old(len(hs.uconn.certCompressionAlgs)) == 0 ==> processedMsg == nil && err == nil
+//@   ensures either: processedMsg == nil || err == nil
+//@   at before call transcriptMsg#0: assert what: istype(msg, *utlsCompressedCertificateMsg) && arg0 == msg && arg1 == hs.transcript
+//@   at before call decompressCert#0: assert same: arg0 == hs && arg1.algorithm == cm.algorithm && arg1.uncompressedLength == cm.uncompressedLength && arg1.compressedCertificateMessage == cm.compressedCertificateMessage
+//@   loop 0 invariant -1 <= $rangeindex && $rangeindex < len(hs.uconn.Extensions)
